@@ -11,8 +11,9 @@ META = dict(
     category="model_checking",
     technique="TLA+ control/guard matrix (Controls.tla) enumerated by TLC; every cell executed on the real handlers and block hooks under real kill-switch / ESM / price settings; outcomes judged by a TLC trace spec",
     text="Controls.tla gives, per message handler of vault, locker and lend (32 handler/product rows) and per sweep / auction starter (10 hooks), what the "
-         "statement demands under breaker in {off,on} x shutdown in {off, executed in cool-off, executed after cool-off} x every subset of inactive prices "
-         "(582 + 60 cells), next to the guards as coded. TLC checks at design level that the coded guards refine the demanded ones and emits the cells; the "
+         "statement demands under breaker in {off,on} x shutdown in {off, executed this block (no snapshot), executed with the snapshot blocked by an inactive feed, "
+         "executed in cool-off, executed after cool-off} x every subset of needed prices unavailable (inactive / missing record), plus the external-keeper liquidation and the V2 market bid "
+         "for the price clause, next to the guards as coded. TLC checks at design level that the coded guards refine the demanded ones and emits the cells; the "
          "harness sets the controls through the real entry points (MsgKillSwitch from the admin, MsgDepositESM + MsgExecuteESM + a block for the snapshot, "
          "inactive TWA records) on a fresh fixture and on seeded non-fresh states in which the same message succeeds with the controls off, executes the "
          "message / hook and records result, store digest and seizure / auction counts; TLC evaluates C14_Breaker, C14_Shutdown, C14_CoolOff, "
@@ -29,7 +30,7 @@ def run(c):
     c.judge(dict(fails=[tuple(x) for x in res["fails"]]), logf)
     st = res["stats"]
     if not c.violations:   # a violation on real-code states stands on its own; vacuity only matters for a clean result
-        mx.need(st, ["ctlBreaker", "ctlShutdown", "ctlCoolOff", "ctlCoolWitness", "ctlPrice", "ctlRefOk", "ctlFreeOk", "hookBreaker", "hookPrice", "hookRefActs", "aucPrice", "aucRefMoved"])
+        mx.need(st, ["ctlBreaker", "ctlShutdown", "ctlCoolOff", "ctlCoolWitness", "ctlPrice", "ctlRefOk", "ctlFreeOk", "hookBreaker", "hookPrice", "hookRefActs", "aucPrice", "aucRefMoved", "ctlNoSnapshot", "ctlPriceInactive", "ctlPriceMissing"])
         mx.need_eq(st, [("ctlHandlersWitnessed", "ctlHandlers"), ("hooksWitnessed", "hooks"), ("aucStepsWitnessed", "aucSteps")])
     c.samples = mx.samples(logf, ("Ctl", "Hook", "Auc"))
     return c.finish("model_checking", dict(
